@@ -1342,14 +1342,35 @@ def draw_isrn(ctx, mods, r, cid, nmax):
         x, y = x.reshape(-1), y.reshape(-1)
     mode = "threshold" if r.random() < 0.6 else "recurrence_rate"
     tol = 0.0 if exact else 1e-9
-    X = ref.as2d(ref.f32(x))
-    Y = ref.as2d(ref.f32(y))
+    # the optional normalisation (continuous data), each series on its own;
+    # in half of those cases x and y are overlapping stretches of one
+    # single-precision record of the caller (which stays what it is)
+    normalize = (not exact) and min(nx, ny) >= 3 and r.random() < 0.35
+    record = None
+    if normalize:
+        mode = "threshold"
+        tol = 1e-4
+        ctx.count("isrn_normalized")
+        if style == "f32" and r.random() < 0.5:
+            k_ = int(r.integers(1, 3))
+            record = np.float32(gen_series(r, nx + k_, d, "f32"))
+            if d == 1 and np.ndim(x) == 1:
+                record = record.reshape(-1)
+            x, y = record[:-k_], record[k_:]
+            ny = nx
+            if dim is not None and \
+                    min(nx - (dim - 1) * tau[0], ny - (dim - 1) * tau[1]) < 1:
+                dim = tau = None
+            record0 = record.copy()
+            ctx.count("isrn_overlapping_views_of_one_record")
+    X = state_matrix(np.array(x, dtype=float), None, None, normalize)
+    Y = state_matrix(np.array(y, dtype=float), None, None, normalize)
     if dim is not None:
         X = ref.embed(X[:, 0], dim, tau[0])
         Y = ref.embed(Y[:, 0], dim, tau[1])
     Ds = (ref.distance_matrix(X, X, metric), ref.distance_matrix(Y, Y, metric),
           ref.distance_matrix(X, Y, metric))
-    tags = []
+    tags = ["normalize"] if normalize else []
     if dim is not None and (X.shape[0] != nx or Y.shape[0] != ny):
         tags.append("embedded")
     if X.shape[0] != Y.shape[0]:
@@ -1361,8 +1382,18 @@ def draw_isrn(ctx, mods, r, cid, nmax):
     kw = {mode: value}
     if dim is not None:
         kw.update(dim=dim, tau=tau)
-    ok, obj = ctx.call(mods[cname], held(ctx, r, x), held(ctx, r, y), metric=metric,
-                       silence_level=3, **kw)
+    if normalize:
+        kw["normalize"] = True
+    if record is not None:
+        ok, obj = ctx.call(mods[cname], x, y, metric=metric, silence_level=3,
+                           **kw)
+        if not np.array_equal(record, record0):
+            ctx.violation(sig(cname, "__init__", "edits-the-caller's-record",
+                              tags), case, cid)
+            return
+    else:
+        ok, obj = ctx.call(mods[cname], held(ctx, r, x), held(ctx, r, y),
+                           metric=metric, silence_level=3, **kw)
     ctx.evals()
     if not ok:
         ctx.violation(sig(cname, "__init__", f"raises:{type(obj).__name__}",
@@ -1370,7 +1401,7 @@ def draw_isrn(ctx, mods, r, cid, nmax):
         return
     judge_isrn(ctx, obj, cname, Ds, mode, value, tags, case, cid, exact, tol,
                dim)
-    if r.random() < 0.5:
+    if r.random() < 0.5 and not normalize:
         smode = "threshold" if r.random() < 0.6 else "recurrence_rate"
         sval = tuple(draw_value(r, smode, D, 0, exact, tol, None, False)[0]
                      for D in Ds)
